@@ -352,6 +352,8 @@ pub fn baseline(seed: u64, opts: &GenOpts) -> (SupplyTrace, Plan) {
         work_files: vec![],
         caller_json_alias: vec![],
         step_name: None,
+        rel_link_dir: false,
+        read_faults: None,
     };
     (t, Plan { owners, funcs, outsiders, now: now.min(exp) })
 }
